@@ -15,6 +15,28 @@ func init() {
 		"github.com/Oneledger/protocol/serialize.RegisterConcrete":  extNop,
 		"github.com/Oneledger/protocol/serialize.RegisterInterface": extNop,
 		"github.com/Oneledger/protocol/serialize.msgpackRegConc":    extNop,
+		// balance.Amount's JSON form is the decimal text of the integer; the pair
+		// below is the blob-model rendering of that custom marshaller (identity
+		// round trip on the integer), used when repo code calls it directly
+		"(github.com/Oneledger/protocol/data/balance.Amount).MarshalJSON": func(fr *frame, args []value) value {
+			fr.i.x.stub("balance.Amount.MarshalJSON/UnmarshalJSON (scalar blob, identity round trip)")
+			t := fr.fn.Signature.Recv().Type()
+			return tuple{fr.i.newBlob(t, fr.i.deepCopyAll(t, args[0])), iface{}}
+		},
+		"(*github.com/Oneledger/protocol/data/balance.Amount).UnmarshalJSON": func(fr *frame, args []value) value {
+			data, _ := args[1].([]value)
+			b := blobOf(data)
+			if b == nil || !isBigIntStruct(b.t) {
+				return declined{}
+			}
+			p := args[0].(*value)
+			if p == nil {
+				panic(nilDeref())
+			}
+			store(b.t, p, fr.i.deepCopyAll(b.t, b.v))
+			return iface{}
+		},
+		"reflect.TypeOf": func(fr *frame, args []value) value { return iface{} },
 		"time.Now": func(fr *frame, args []value) value {
 			fr.i.x.stub("time.Now (environment: fixed zero instant; must not reach consensus outputs)")
 			return zero(fr.fn.Signature.Results().At(0).Type())
